@@ -177,7 +177,9 @@ def run(ctx, rep):
             a = dict(e.rec.kwargs).get(p)
             if a is None:
                 continue
-            okc = (a[0] == "param" and (e.caller, a[1]) in contracts) or (a[0] == "sub" and a[2][0] == "slice")
+            okc = (a[0] == "param" and (e.caller, a[1]) in contracts) or (a[0] == "sub" and a[2][0] == "slice") or \
+                (a[0] == "call" and a[1] in (("builtin", "list"), ("builtin", "tuple")) and len(a[2]) == 1 and a[2][0][0] == "proj"
+                 and a[2][0][1][0] == "elem")  # list(group) of itertools.groupby: groups are never empty
             if not okc:
                 fail(rp, ctx, cg.funcs[e.caller], e.rec.node, f"{e.caller} passes {show(a)[:80]} as `{p}` of {fq}: not the non-empty group the "
                                                              f"callee's first-element reads rely on")
